@@ -66,6 +66,8 @@ func (f *WriteSequence) Call(s *slip.Scope, args slip.List, depth int) slip.Obje
 	}
 	var ra []rune
 	switch ta := args[0].(type) {
+	case nil:
+		// the empty sequence
 	case slip.String:
 		ra = []rune(ta)
 	case slip.List:
